@@ -240,8 +240,8 @@ type joeWorld struct {
 	faults    bool
 	noWitness bool // Joe runs without any Replayer: no Put-order witness
 	repKind   int  // 0 none, 1 finite, 2 valid
-	auto     bool
-	capacity int
+	auto      bool
+	capacity  int
 
 	subs       []*joeSub
 	pubs       []*joePub
@@ -719,6 +719,7 @@ func runJoeWorld(rc *RunCtx) *Outcome {
 	o.Steps = res.Steps
 	o.SimTime = res.SimTime
 	o.LogHash = res.Hash
+	o.Sched = res.SchedHash
 	if rc.KeepLog {
 		o.Log = append(o.Log, w.describe()...)
 		for _, e := range w.sim.Events() {
